@@ -205,7 +205,7 @@ theorem unmarkDeepWithPaths_owned {st st' : St} {v : Nat}
     subst e
     have hg := (udw_owned _ _ _ _ _ r hv).2
     intro g hgm
-    simp only [pushPVM_gos, pushPVM_mem, St.pushVal, St.withMem, List.drop_left, List.mem_flatten, List.mem_map] at hgm ⊢
+    simp only [pushPVM_gos, pushPVM_mem, List.drop_left, List.mem_flatten, List.mem_map] at hgm ⊢
     obtain ⟨l, ⟨e, he, hl⟩, hgl⟩ := hgm
     subst hl
     obtain ⟨⟨pa, off, len, cap, e1, h1⟩, mk, e2, h2⟩ := hg e he
@@ -214,6 +214,32 @@ theorem unmarkDeepWithPaths_owned {st st' : St} {v : Nat}
     · subst hgl; rw [e1]; exact ⟨pa, rfl, h1⟩
     · subst hgl; rw [e2]; exact ⟨mk, rfl, h2⟩
   · cases h
+
+/-- the slice `ValueSet.Values` / `AsValueSlice` / `PathSet.List` answers is the caller's -/
+theorem collectValues_owned {st st' : St} {a : Addr} {ordered : Bool} {perm : List Nat} {wrap : Word → Word}
+    (he : collectValues st a ordered perm wrap = some st') :
+    ∃ g, st'.gos = st.gos ++ [g] ∧ ∀ x, goRoot g = some x → ownerOf st'.mem x = some .caller := by
+  unfold collectValues at he
+  cases hm : setMembers st.mem a with
+  | none => simp [hm] at he
+  | some xs =>
+    simp only [hm] at he
+    split at he
+    · cases he; exact ⟨_, rfl, fun x hx => by simp [goRoot] at hx⟩
+    · simp only [alloc] at he
+      split at he
+      · cases he
+      · rename_i m1 vals hv
+        split at he
+        · cases he
+        · cases he
+          refine ⟨_, rfl, fun x hx => ?_⟩
+          simp only [goRoot, Option.some.injEq] at hx
+          subst hx
+          simp only [St.withMem, St.pushGo]
+          rw [ownerOf_setBody]
+          have e1 := (pres_setValuesGo (W := NoW) (Ext.refl NoW _) hv).1
+          exact ownerOf_ext e1 (by simp [ownerOf])
 
 end Heap
 end CtyModel
